@@ -172,8 +172,18 @@ def MakeID3v1(id3):
             text = b""
         v1[name] = text + (b"\x00" * (30 - len(text)))
 
+    comment = None
     if "COMM" in id3:
-        cmnt = id3["COMM"].text[0].encode('latin1', 'replace')[:28]
+        comment = id3["COMM"]
+    else:
+        # frames of an ID3 tag are keyed by "COMM:<description>:<language>";
+        # take the comment without a description
+        for key in sorted(id3.keys()):
+            if key.startswith("COMM::"):
+                comment = id3[key]
+                break
+    if comment is not None and comment.text:
+        cmnt = comment.text[0].encode('latin1', 'replace')[:28]
     else:
         cmnt = b""
     v1["comment"] = cmnt + (b"\x00" * (29 - len(cmnt)))
